@@ -11,6 +11,7 @@ import (
 	"reservoir/metrics"
 	"reservoir/proxy/headers"
 	"reservoir/utils/countingreader"
+	"sync"
 	"time"
 
 	"golang.org/x/sync/singleflight"
@@ -22,6 +23,10 @@ type fetcher struct {
 	cache cache.Cache[cachedRequestInfo]
 	cfg   *config.Config
 	group singleflight.Group
+
+	// Built on first use, so that it inherits the process-wide transport settings in force when traffic starts.
+	upstreamOnce sync.Once
+	upstream     *http.Client
 }
 
 func newFetcher(cache cache.Cache[cachedRequestInfo], cfg *config.Config) fetcher {
@@ -140,7 +145,8 @@ func (f *fetcher) sendRequestToUpstream(req *http.Request) (*http.Response, time
 	metrics.Global.Requests.UpstreamRequests.Increment()
 
 	startTime := time.Now()
-	resp, err := sendRequestToTarget(req, f.cfg.Proxy.UpstreamDefaultHttps.Read())
+	f.upstreamOnce.Do(func() { f.upstream = newUpstreamClient() })
+	resp, err := sendRequestToTarget(f.upstream, req, f.cfg.Proxy.UpstreamDefaultHttps.Read())
 	latency := time.Since(startTime)
 
 	metrics.Global.Requests.UpstreamRequestLatency.Add(latency.Nanoseconds())
